@@ -8,7 +8,7 @@ NSEG = 4 * (len(zg.QTYPES) + 2)
 
 def gen(rng, tier):
     quick = tier == "quick"
-    nzones = 300 if quick else 8000
+    nzones = 400 if quick else 4000
     for zi in range(nzones):
         apex, cls, recs = zg.gen_zone(rng)
         head = f"L {zg.nm(apex)} {cls} {';'.join(recs) if recs else '-'}"
@@ -99,7 +99,7 @@ MANIFEST = {
     "level_text": ("Coq theorems (no axioms): for every add history, every name, type and option combination, lookup / "
                    "lookup_addrs / lookup_all of the model of HashMapTreeZone equal an independent RFC 1034 §4.3.2 / RFC 4592 "
                    "specification evaluated on the flat list of accepted records (names compared case-insensitively); the model "
-                   "is tied to the code by a differential run over ~52k names x 40 lookups per quick run, and the extracted "
+                   "is tied to the code by a differential run over ~70k names x 40 lookups per quick run, and the extracted "
                    "specification is evaluated on every implementation answer."),
     "level_note": ("Trusted: Coq kernel, extraction, the hand-written model's correspondence to the Rust code (differentially tested), "
                    "Rdata::equals taken as an abstract equivalence."),
